@@ -8,6 +8,7 @@ clause is stated — and audited — under C10 as well.
 -/
 import HipVerif.Lemmas.CoreOpsA3
 import HipVerif.Lemmas.CoreStr
+import HipVerif.Audit.Reexport
 
 namespace HipVerif.Props.C10
 open HipVerif.Core HipVerif.Spec.Std HipVerif.RangeTy
@@ -92,6 +93,14 @@ theorem repeat_result (cfg : Cfg) (s : State) (h d n : Nat) (v r : List UInt8) (
     exact this.1
   exact HipVerif.Str.sget_set_same _ _ _ hl
 
+/-- "…in normalised representation": `repeat` keeps the representation contract — every value that
+does not descend from `with_capacity` (the result included: it is built untainted unless it is the
+`n = 1` / empty shortcut's clone of the source) is inline exactly when it fits the inline capacity. -/
+reexport HipVerif.Core.norm_op_repeat as repeat_keeps_normalised
+
+/-- …and the invariant of reachable states (counts, liveness, distinct buffers) is preserved. -/
+reexport HipVerif.Core.wf_op_repeat as repeat_keeps_wf
+
 /-! Non-vacuity: a 12-byte heap-free value repeated 3 times is a 36-byte heap value equal to std's;
 a product of exactly 2^63 panics; a wrapped product (2^32 · 2^32 ≡ 0) panics rather than yielding
 an empty value. -/
@@ -99,6 +108,9 @@ an empty value. -/
 private def c : Cfg := { backend := .arc, ceil := 5, debug := true, icap := 23 }
 example : sget (abs (run c (init [] 3) [.fromSlice 0 [1, 2], .repeat 0 1 3]).1) 1 = some [1, 2, 1, 2, 1, 2] := by
   decide
+/-- 24 bytes from 3 × 8: one more than the inline capacity, so the result is a fresh heap value -/
+example : ((getH (run c (init [] 3) [.fromSlice 0 (List.replicate 8 7), .repeat 0 1 3]).1 1).map (·.repr)) =
+    some (.heap 0 1 0 24) := by decide
 example : stdRepeat [1, 2] 3 = some [1, 2, 1, 2, 1, 2] := by
   have : (6 : Nat) < U / 2 := by simp [U]
   simp [stdRepeat, this]
